@@ -60,6 +60,16 @@ KEYWORD_RULES = {
 }
 
 
+def discriminator_names():
+    """Keyword names that any variant selector (or the MGA identity rule) reads."""
+    out = {"type"}
+    for rules in KEYWORD_RULES.values():
+        for r in rules.values():
+            if len(r) > 1 and isinstance(r[1], str):
+                out.add(r[1])
+    return out
+
+
 def pred_holds(pred, payload: bytes) -> bool:
     if pred[0] == "len":
         return len(payload) == pred[1]
